@@ -148,15 +148,12 @@ def handleRun (req : Json) : Except String Json := do
   let mut out : List (String × Json) := [("init", resJson (fun _ => Json.null) init)]
   if init.isOk then
     let all := iterSymbols S env data h strOff
-    -- the queries are made in order on ONE section object: the first call builds `_symbol_name_map`
-    -- (possibly raising half-way), later calls use what it left behind
-    let later := nameMapAfterFirstCall S env data h strOff
-    let byName (i : Nat) (q : Bytes) : R (Option (List Symbol)) :=
-      if i = 0 then
-        match all with
-        | .ok l => getSymbolByNameFrom getSym (buildNameMap l) q
-        | .error e => .error e
-      else getSymbolByNameFrom getSym later q
+    -- the queries are made in order on ONE section object.  `_symbol_name_map` is published only when
+    -- complete (fix 31a474f), so a call that raises leaves no state behind: every call behaves like the first
+    let byName (_i : Nat) (q : Bytes) : R (Option (List Symbol)) :=
+      match all with
+      | .ok l => getSymbolByNameFrom getSym (buildNameMap l) q
+      | .error e => .error e
     out := out ++ [
       ("num", resJson jN (numSymbols h)),
       ("symbols", resJson (fun l => Json.arr (l.map symJson).toArray) all),
